@@ -139,7 +139,7 @@ def work(item):
         for kind, getter, arg in (('basis', bse.get_basis_notes, name), ('family', bse.get_family_notes, md['family'])):
             notes = getter(arg, **kw)
             dd = data_dir or bse.get_data_dir()
-            p = os.path.join(dd, md['relpath'], md['basename'] + '.notes') if kind == 'basis' else os.path.join(dd, 'NOTES.' + md['family'].lower())
+            p = os.path.join(dd, md['basename'] + '.notes') if kind == 'basis' else os.path.join(dd, 'NOTES.' + md['family'].lower())
             raw = open(p, encoding='utf-8').read() if os.path.isfile(p) else None
             rec = dict(sel=None, fmt='notes-' + kind, bad=[], hash=hashlib.sha1((notes or '').encode()).hexdigest())
             if raw is None:
